@@ -73,6 +73,9 @@ def harnesses(tier):
             scenario_harness("chains-depth3", Profile(
                 templates=("D3",), raises="free", crit_job="free", crit_sched="free", perm="id", top="sched",
                 top_crit="free", edges="none"), o, required_notes=req),
+            scenario_harness("nested-own-window-with-forever-jobs", Profile(
+                templates=("N13",), window="always", window_scope="nested", forever="free", perm="id",
+                crit_job=False, crit_sched=False, edges="none"), o + [O.c09_forever]),
             flat_twin("flatten", Profile(raises="free", crit_job="free", crit_sched=True, perm="id", top="pure"),
                       ("N12", "N21", "D3")),
         ]
